@@ -19,6 +19,7 @@ var (
 	ErrIsDir    = errors.New("simfs: is a directory")
 	ErrBackend  = errors.New("simfs: storage backend unavailable")
 	ErrWrapsEOF = fmt.Errorf("simfs: stream reset by peer: %w", io.EOF)
+	ErrDeadline = deadlineErr{}
 )
 
 type Fault struct {
@@ -26,9 +27,17 @@ type Fault struct {
 	Kind string `json:"kind"`           // readerr | notexist | perm | emfile | dir
 	At   int    `json:"at,omitempty"`   // readerr: octets delivered before the error
 	Nth  int    `json:"nth,omitempty"`  // apply to the n-th open of the file (0 = every open)
+	Temp bool   `json:"temp,omitempty"` // readerr: the error says it is temporary and a timeout (an expired read deadline) - and it is there again on every further read
 	Wrap bool   `json:"wrap,omitempty"` // readerr: the error wraps io.EOF ("connection reset: EOF"): a broken stream, not the end of the text
 	Once bool   `json:"once,omitempty"` // readerr: the read fails once (a transient error), the next one carries on with the rest of the file
 }
+
+// deadlineErr looks like an expired read deadline: Timeout() and Temporary() are true.
+type deadlineErr struct{}
+
+func (deadlineErr) Error() string   { return "simfs: read: i/o timeout" }
+func (deadlineErr) Timeout() bool   { return true }
+func (deadlineErr) Temporary() bool { return true }
 
 type FS struct {
 	Files     map[string][]byte
@@ -60,7 +69,7 @@ func (f *FS) Open(name string) (fs.File, error) {
 		f.OpenedLog = append(f.OpenedLog, name)
 	}
 	nth := f.OpenCount[name]
-	readErrAt, eof, once, wrap := -1, false, false, false
+	readErrAt, eof, once, wrap, temp := -1, false, false, false, false
 	for _, ft := range f.Faults {
 		if ft.File != name || (ft.Nth != 0 && ft.Nth != nth) {
 			continue
@@ -95,7 +104,7 @@ func (f *FS) Open(name string) (fs.File, error) {
 			}
 			return &file{fs: f, name: name, dir: true}, nil
 		case "readerr":
-			readErrAt, once, wrap = ft.At, ft.Once, ft.Wrap
+			readErrAt, once, wrap, temp = ft.At, ft.Once, ft.Wrap, ft.Temp
 		case "eofat":
 			readErrAt, eof = ft.At, true
 		}
@@ -110,7 +119,7 @@ func (f *FS) Open(name string) (fs.File, error) {
 	if f.Nest > f.MaxNest {
 		f.MaxNest = f.Nest
 	}
-	return &file{fs: f, name: name, data: data, errAt: readErrAt, eofOnly: eof, once: once, wrap: wrap}, nil
+	return &file{fs: f, name: name, data: data, errAt: readErrAt, eofOnly: eof, once: once, wrap: wrap, temp: temp}, nil
 }
 
 type file struct {
@@ -125,6 +134,7 @@ type file struct {
 	eofOnly bool // end the file at errAt without an error (reference runs)
 	once    bool // the read error is transient: returned once, then the file carries on
 	wrap    bool // the read error wraps io.EOF
+	temp    bool // the read error is a timeout that says it is temporary
 }
 
 func (x *file) Stat() (fs.FileInfo, error) { return info{x.name, int64(len(x.data)), x.dir}, nil }
@@ -154,6 +164,10 @@ func (x *file) Read(p []byte) (int, error) {
 			if x.wrap {
 				f.Fired["read_error_wrapping_eof"]++
 				return 0, ErrWrapsEOF
+			}
+			if x.temp {
+				f.Fired["read_error_temporary"]++
+				return 0, ErrDeadline
 			}
 			return 0, ErrInjected
 		}
@@ -207,16 +221,16 @@ func (i info) Sys() any           { return nil }
 type Reader struct{ f *file }
 
 func (f *FS) Reader(name string, data []byte) *Reader {
-	errAt, eof, once, wrap := -1, false, false, false
+	errAt, eof, once, wrap, temp := -1, false, false, false, false
 	for _, ft := range f.Faults {
 		if ft.File == name && ft.Kind == "readerr" {
-			errAt, once, wrap = ft.At, ft.Once, ft.Wrap
+			errAt, once, wrap, temp = ft.At, ft.Once, ft.Wrap, ft.Temp
 		}
 		if ft.File == name && ft.Kind == "eofat" {
 			errAt, eof = ft.At, true
 		}
 	}
-	return &Reader{&file{fs: f, name: name, data: data, errAt: errAt, eofOnly: eof, once: once, wrap: wrap}}
+	return &Reader{&file{fs: f, name: name, data: data, errAt: errAt, eofOnly: eof, once: once, wrap: wrap, temp: temp}}
 }
 
 func (r *Reader) Read(p []byte) (int, error) { return r.f.Read(p) }
